@@ -66,6 +66,11 @@ func main() {
 		imports[name] = path
 	}
 	phases := map[string]string{"SetOrderBeginBlockers": "begin", "SetOrderEndBlockers": "end"}
+	if len(os.Args) > 2 && os.Args[2] == "genesis" {
+		// the C14 table: the order in which InitGenesis runs (the genesis invariant assertion of
+		// x/crisis must come after every module whose state an invariant reads)
+		phases = map[string]string{"SetOrderInitGenesis": "genesis"}
+	}
 	seen := map[string]int{}
 	var rows []row
 	ast.Inspect(f, func(n ast.Node) bool {
@@ -104,7 +109,7 @@ func main() {
 		}
 		return true
 	})
-	for _, ph := range []string{"begin", "end"} {
+	for _, ph := range phases {
 		if seen[ph] == 0 {
 			rows = append(rows, row{ph + ":no-call-found"})
 		}
